@@ -3,7 +3,9 @@
 # of /repo's HEAD (suite passes with the change; demo fails with it and passes without) and stores it under /verif/seeded/<PROP>-<X>/.
 set -u
 PROP=$1; X=$2
-SRC=/tmp/wt/$PROP/_out/$X
+# optional: SRC_ROOT (default /tmp/wt) and NAME (default $X) for later rounds, e.g. SRC_ROOT=/tmp/wt2 NAME=C
+SRC=${SRC_ROOT:-/tmp/wt}/$PROP/_out/$X
+X=${NAME:-$X}
 DST=/verif/seeded/$PROP-$X
 WT=/tmp/adopt-$PROP-$X
 export GOFLAGS=-mod=mod GOPROXY=off GOSUMDB=off GOTOOLCHAIN=local
